@@ -76,6 +76,16 @@ fn scopes(names: &[i32], rng: &mut ChaCha8Rng, max_subsets: usize) -> Vec<(bool,
     if n == 0 {
         return out;
     }
+    if n >= 40 {
+        // too many nodes for a bit mask: subsets of very different sizes, including nearly everything
+        for k in 0..max_subsets.min(6) {
+            let p = [0.05, 0.5, 0.95, 0.99, 0.3, 0.8][k % 6];
+            let mut sub: Vec<i32> = names.iter().copied().filter(|_| rng.gen_bool(p)).collect();
+            if sub.is_empty() { sub.push(names[0]); }
+            out.push((false, sub));
+        }
+        return out;
+    }
     let total = (1usize << n) - 1;
     if total <= max_subsets {
         for m in 1..=total {
